@@ -136,49 +136,84 @@ structure RNode where
   name : String
   deriving Repr, Inhabited, DecidableEq
 
-structure RG where
+/-- the flat graph without the slot allocators -/
+structure Core where
   nodes : List RNode := []
   g : DMG := {}
   /-- `ports: SecondaryMap<GraphEdgeId, (PortIndexValue, PortIndexValue)>` -/
   ports : List (Nat × String × String) := []
-  alloc : SlotAlloc := {}
   deriving Repr, Inhabited
 
 /-- the observation of C20: `(src, src port, dst, dst port)` of every edge -/
 abbrev Wire := Nat × String × Nat × String
 
+namespace Core
+
+def portsOf (c : Core) (k : Nat) : String × String := (aget c.ports k).getD ("_", "_")
+
+def wireOf (ports : List (Nat × String × String)) (e : DEdge) : Wire :=
+  (e.2.1, ((aget ports e.1).getD ("_", "_")).1, e.2.2, ((aget ports e.1).getD ("_", "_")).2)
+
+def wires (c : Core) : List Wire := c.g.edges.map (wireOf c.ports)
+
+/-- `DfirGraph::remove_intermediate_node(n)` where the slot map hands out `k` for the new edge;
+    `none` = an assert/unwrap fires -/
+def removeNode (c : Core) (k n : Nat) : Option Core :=
+  if c.g.degIn n != 1 || c.g.degOut n != 1 then none else
+  match c.g.removeIntermediateVertex k n with
+  | none => none
+  | some (g', pe, se) =>
+    some { nodes := c.nodes.filter (fun x => x.id != n), g := g',
+           ports := aset (aerase (aerase c.ports pe) se) k ((c.portsOf pe).1, (c.portsOf se).2) }
+
+/-- `DfirGraph::insert_intermediate_node(e, Handoff)` with new node id `v` and new edge keys `k0`, `k1` -/
+def insertNode (c : Core) (k0 k1 v e : Nat) : Option Core :=
+  match c.g.insertIntermediateVertex k0 k1 v e with
+  | none => none
+  | some g' =>
+    some { nodes := c.nodes ++ [⟨v, "hoff", "handoff"⟩], g := g',
+           ports := aset (aset (aerase c.ports e) k0 ((c.portsOf e).1, "_")) k1 ("_", (c.portsOf e).2) }
+
+end Core
+
+structure RG where
+  core : Core := {}
+  alloc : SlotAlloc := {}
+  deriving Repr, Inhabited
+
 namespace RG
 
-def portsOf (r : RG) (k : Nat) : String × String := (aget r.ports k).getD ("_", "_")
+def nodes (r : RG) : List RNode := r.core.nodes
+def g (r : RG) : DMG := r.core.g
+def ports (r : RG) : List (Nat × String × String) := r.core.ports
+def portsOf (r : RG) (k : Nat) : String × String := r.core.portsOf k
+def wires (r : RG) : List Wire := r.core.wires
 
-def wires (r : RG) : List Wire :=
-  r.g.edges.map fun e => (e.2.1, (r.portsOf e.1).1, e.2.2, (r.portsOf e.1).2)
-
-/-- `DfirGraph::remove_intermediate_node(n)`; `none` = an assert/unwrap fires -/
+/-- `remove_intermediate_node` with slot-map bookkeeping: both old edges are released (pred first), the new
+    edge reuses the slot freed last -/
 def removeIntermediateNode (r : RG) (n : Nat) : Option RG :=
-  if r.g.degIn n != 1 || r.g.degOut n != 1 then none else
   match aget r.g.preds n, aget r.g.succs n with
   | some [pe], some [se] =>
-    -- slot-map bookkeeping: both old edges are released (pred first), the new edge reuses the last freed slot
     let a := (r.alloc.release pe).release se
     let (k, a) := a.alloc
-    match r.g.removeIntermediateVertex k n with
-    | none => none
-    | some (g', pe', se') =>
-      let sp := (r.portsOf pe').1
-      let dp := (r.portsOf se').2
-      some { nodes := r.nodes.filter (fun x => x.id != n), g := g',
-             ports := aset (aerase (aerase r.ports pe') se') k (sp, dp), alloc := a }
+    (r.core.removeNode k n).map fun c => { core := c, alloc := a }
   | _, _ => none
 
 /-- `find_unary_ops(graph, name)` -/
 def findUnaryOps (r : RG) (name : String) : List Nat :=
   (r.nodes.filter fun x => x.kind == "op" && x.name == name && r.g.degIn x.id == 1 && r.g.degOut x.id == 1).map (·.id)
 
+/-- remove the given nodes one after the other -/
+def removeAll (r : RG) : List Nat → Option RG
+  | [] => some r
+  | n :: t =>
+    match r.removeIntermediateNode n with
+    | some r1 => removeAll r1 t
+    | none => none
+
 /-- `eliminate_extra_unions_tees`: the list of unary unions then tees is computed first, then each is removed -/
 def eliminateExtraUnionsTees (r : RG) : Option RG :=
-  (r.findUnaryOps "union" ++ r.findUnaryOps "tee").foldl
-    (fun acc n => match acc with | some r => r.removeIntermediateNode n | none => none) (some r)
+  r.removeAll (r.findUnaryOps "union" ++ r.findUnaryOps "tee")
 
 /-! `PortIndexValue` ordering: Int < Path < Elided; ints by value, paths by token text -/
 
@@ -230,15 +265,19 @@ def removeModuleBoundary (r : RG) (m : Nat) : Option (Except Unit RG) :=
             | some g2 =>
               let a := (r.alloc.release pe).release se
               let (k, a) := a.alloc
-              some { r with g := g2.insertEdge k src dst,
-                            ports := aset (aerase (aerase r.ports pe) se) k (pp.2.2, sp.2.2), alloc := a }
+              some { core := { r.core with g := g2.insertEdge k src dst,
+                                           ports := aset (aerase (aerase r.ports pe) se) k (pp.2.2, sp.2.2) }, alloc := a }
         | _, _ => none
   match predPorts.foldl step (some r) with
   | none => none
   | some r' =>
     if r'.g.degIn m != 0 || r'.g.degOut m != 0 then none else
-    some (.ok { r' with nodes := r'.nodes.filter (fun x => x.id != m),
-                        g := { r'.g with succs := aerase r'.g.succs m, preds := aerase r'.g.preds m } })
+    let c' := r'.core
+    let g' := c'.g
+    some (.ok { core := { nodes := c'.nodes.filter (fun x => x.id != m),
+                          g := { edges := g'.edges, succs := aerase g'.succs m, preds := aerase g'.preds m },
+                          ports := c'.ports },
+                alloc := r'.alloc })
 
 /-- `merge_modules` -/
 def mergeModules (r : RG) : Option (Except Unit RG) :=
